@@ -25,10 +25,14 @@ func init() {
 			"destination reference to the source reference exactly when it is empty, prepareCopy installs tagging wrappers on every path, each wrapper reaches a tag effect " +
 			"(Tag / PushReference with the captured destination reference) on every successful root path, the traversal notifies OnCopySkipped for an existing node, Copy returns " +
 			"the (mapped) root it prepared and copied, and ExtendedCopy tags the resolved node on every successful return. R5 (a parent is pushed only after waiting for every " +
-			"successor) is the same obligation as C02.R1 and is discharged there, not repeated. NOT decided (not applicable to static analysis): byte identity of what the stores " +
+			"successor) is the same obligation as C02.R1 and is discharged there, not repeated. (R6) a claimed node's traversal, and each node-copy helper it returns through, reports " +
+			"success only after dst.Exists answered true for the node, a push / mount / push-with-reference, or PreCopy's SkipNode; (R7) the root Copy returns is what the source " +
+			"resolves / fetches for srcRef (optionally mapped), WithTargetPlatform applies the platform selection to the mapped root, and SelectManifest answers only after a " +
+			"Match against the requested platform with the root (config platform) or an entry of its manifest list; (R8) every Fetch / Push / PushReference / Mount of the graph " +
+			"copy names the descriptor of the node its function works on. NOT decided (not applicable to static analysis): byte identity of what the stores " +
 			"return, every store pairing, behaviour under a custom FindSuccessors, the proviso on link-closed destinations, schedules.",
 		Run:     runC01,
-		Mutants: c01Mutants,
+		Mutants: append(c01Mutants, c01CovMutants...),
 	})
 }
 
@@ -41,6 +45,7 @@ func runC01(c *Ctx) {
 	c01R4(c)
 	c01TagsGivenNode(c, "C01.R4.root-tagging")
 	c01MapRootChain(c)
+	runC01Coverage(c)
 }
 
 // c01MapRootChain: a MapRoot wrapper (WithTargetPlatform) hands its own ctx, source and root to the MapRoot it wraps.
